@@ -156,10 +156,10 @@ def match_known(known, prop, cfg, label, env, detail):
             continue
         if "where" in m:
             try:
-                ok = eval(m["where"], {"__builtins__": {}},
-                          dict(cfg=cfg, env=env or {}, label=label, detail=detail or {}, floor=math.floor,
-                               abs=abs, int=int, len=len, any=any, all=all, str=str, min=min, max=max,
-                               prod=_prod))
+                # (one namespace used as globals: names must be visible inside generator expressions too)
+                ok = eval(m["where"], dict(__builtins__={}, cfg=cfg, env=env or {}, label=label, detail=detail or {},
+                                           floor=math.floor, abs=abs, int=int, len=len, any=any, all=all, str=str, min=min,
+                                           max=max, range=range, prod=_prod))
             except Exception:
                 ok = False
             if not ok:
